@@ -564,3 +564,83 @@ Proof.
   intros F H. destruct (front_inv _ _ _ _ H) as (main & rest & st & -> & G & _).
   unfold gather_files in G. rewrite F in G. exact (gathered_toplevel_unique _ _ G).
 Qed.
+
+(* ---- names along the flattened interface: one number per name (C07, C08) ---- *)
+Require Import proofs.NumberingProofs.
+
+Lemma mi_root_first_rev : forall i, mi_root_first i = rev (mi_chain i).
+Proof.
+  fix IH 1. intros [n [b|] ns]; cbn [mi_root_first mi_chain rev]; [now rewrite (IH b) | reflexivity].
+Qed.
+
+Lemma flat_map_flat_map {A B C} (f : B -> list C) (g : A -> list B) l :
+  flat_map (fun x => flat_map f (g x)) l = flat_map f (flat_map g l).
+Proof. induction l as [|x l IH]; cbn; [reflexivity|]. now rewrite IH, flat_map_app. Qed.
+
+Lemma NoDup_app_inv {A} (l1 l2 : list A) : NoDup (l1 ++ l2) ->
+  NoDup l1 /\ NoDup l2 /\ (forall k, In k l2 -> ~ In k l1).
+Proof.
+  induction l1 as [|a l1 IH]; cbn; intro H.
+  - repeat split; [constructor | exact H | intros k _ []].
+  - inversion H as [|x l Hx Hl]; subst. destruct (IH Hl) as (A1 & A2 & A3). repeat split.
+    + constructor; [|exact A1]. intro X. apply Hx. apply in_or_app. now left.
+    + exact A2.
+    + intros k Hk [<-|X]; [apply Hx; apply in_or_app; now right | exact (A3 k Hk X)].
+Qed.
+
+(* dropping whole per-element blocks keeps a flattened list duplicate-free *)
+Lemma nodup_flat_sub {A B} (f g : A -> list B) : (forall x, g x = f x \/ g x = []) ->
+  forall l, NoDup (flat_map f l) -> NoDup (flat_map g l) /\ incl (flat_map g l) (flat_map f l).
+Proof.
+  intros Hg. induction l as [|x l IH]; cbn [flat_map]; intro H; [split; [constructor | apply incl_refl]|].
+  destruct (NoDup_app_inv _ _ H) as (N1 & N2 & D). destruct (IH N2) as [I1 I2].
+  destruct (Hg x) as [E|E]; rewrite E.
+  - split.
+    + apply NoDup_app_disjoint; [exact N1 | exact I1 | intros k Hk; apply D; now apply I2].
+    + intros k Hk. apply in_app_or in Hk. apply in_or_app. destruct Hk; [now left | right; now apply I2].
+  - cbn [app]. split; [exact I1 | intros k Hk; apply in_or_app; right; now apply I2].
+Qed.
+
+Lemma perm_flat_map_rev {A B} (f : A -> list B) l : Permutation (flat_map f l) (flat_map f (rev l)).
+Proof.
+  induction l as [|x l IH]; cbn [flat_map rev]; [constructor|].
+  rewrite flat_map_app. cbn [flat_map]. rewrite app_nil_r.
+  eapply Permutation_trans; [apply Permutation_app_comm|]. now apply Permutation_app_tail.
+Qed.
+
+Lemma map_flat_map {A B C} (h : B -> C) (f : A -> list B) l :
+  map h (flat_map f l) = flat_map (fun x => map h (f x)) l.
+Proof. induction l as [|x l IH]; cbn; [reflexivity|]. now rewrite map_app, IH. Qed.
+
+(* the command-line pipeline: in the flattened interface of every accepted main-file interface
+   every method name and every error name occurs once *)
+Theorem front_cli_names_once md files mir top :
+  front Cli md files = Ok mir -> In (MTIface top) mir ->
+  NoDup (map mf_name (flat_funcs top)) /\ NoDup (map fst (flat_errors top)).
+Proof.
+  intros H Hin. destruct (front_cli_interfaces_sound _ _ _ _ H Hin) as (N1 & N2 & _).
+  apply nodup_str_NoDup in N1, N2. unfold flat_funcs, flat_errors. rewrite mi_root_first_rev, !map_flat_map. split.
+  - eapply Permutation_NoDup; [apply perm_flat_map_rev | exact N2].
+  - eapply Permutation_NoDup; [apply perm_flat_map_rev|].
+    (* error names are the constant-or-error names with the constants dropped, node by node *)
+    rewrite (flat_map_flat_map (fun n => match n with MConstN c => [c_name c] | MErrorN e _ => [e] | _ => [] end) mi_nodes) in N1.
+    assert (E : forall x, map fst (mnode_errors (mi_nodes x)) =
+                          flat_map (fun n => match n with MErrorN e _ => [e] | _ => [] end) (mi_nodes x)).
+    { intro x. unfold mnode_errors. rewrite map_flat_map. apply flat_map_ext. intros [f|c|e v]; reflexivity. }
+    rewrite (flat_map_ext _ _ E).
+    rewrite (flat_map_flat_map (fun n => match n with MErrorN e _ => [e] | _ => [] end) mi_nodes).
+    refine (proj1 (nodup_flat_sub _ _ _ _ N1)).
+    intros [f|c|e v]; auto.
+Qed.
+
+Theorem front_cli_tables_names_unique md files mir :
+  front Cli md files = Ok mir ->
+  spec_names_unique (optable_of_mir mir) = true /\ spec_names_unique (errtable_of_mir mir) = true.
+Proof.
+  intro H. unfold spec_names_unique, optable_of_mir, errtable_of_mir. split; apply forallb_forall; intros row Hr;
+    apply in_flat_map in Hr; destruct Hr as (t & Ht & Hrow).
+  - destruct t as [p|c|s|top]; try (destruct Hrow; fail). destruct Hrow as [<-|[]]. cbn [snd].
+    apply nodup_str_NoDup. destruct (front_cli_names_once _ _ _ _ H Ht) as [A B]. now rewrite map_map.
+  - destruct t as [p|c|s|top]; try (destruct Hrow; fail). destruct Hrow as [<-|[]]. cbn [snd].
+    apply nodup_str_NoDup. destruct (front_cli_names_once _ _ _ _ H Ht) as [A B]. exact B.
+Qed.
